@@ -5,6 +5,7 @@ package main
 
 import (
 	"encoding/base64"
+	"reflect"
 	"fmt"
 	"go/types"
 	"sort"
@@ -560,6 +561,74 @@ func (e *Engine) registerIntrinsics() {
 			b[i] = byte(et.U)
 		}
 		return mkStr(base64.StdEncoding.EncodeToString(b))
+	}
+
+	// ---------------- mapstructure ----------------
+	// mapstructure.Decode between a struct and map[string]interface{}: every exported
+	// field with a mapstructure tag (not "-") is copied under its tag name, values keep
+	// their Go type (the in-memory path; JSON number conversions are outside the model).
+	in["github.com/mitchellh/mapstructure.Decode"] = func(c *PathCtx, fr *frame, args []Value) Value {
+		inp, outp := args[0].(Iface), args[1].(Iface)
+		pt, ok := outp.T.Underlying().(*types.Pointer)
+		if !ok || inp.T == nil {
+			panic(inconclusive("mapstructure.Decode: unsupported shapes %v -> %v", inp.T, outp.T))
+		}
+		dst := outp.V.(*Value)
+		tagName := func(st *types.Struct, i int) string {
+			f := st.Field(i)
+			if !f.Exported() {
+				return ""
+			}
+			tag := reflect.StructTag(st.Tag(i)).Get("mapstructure")
+			if tag == "-" {
+				return ""
+			}
+			if j := strings.Index(tag, ","); j >= 0 {
+				tag = tag[:j]
+			}
+			if tag == "" {
+				tag = f.Name()
+			}
+			return tag
+		}
+		if st, ok := inp.T.Underlying().(*types.Struct); ok {
+			if mt, ok := pt.Elem().Underlying().(*types.Map); ok {
+				m := &Map{kt: mt.Key(), vt: mt.Elem()}
+				sv := inp.V.(Struct)
+				for i := 0; i < st.NumFields(); i++ {
+					if n := tagName(st, i); n != "" {
+						m.keys = append(m.keys, mkStr(n))
+						m.vals = append(m.vals, Iface{T: st.Field(i).Type(), V: copyVal(sv[i])})
+					}
+				}
+				*dst = m
+				return Iface{}
+			}
+		}
+		if _, ok := inp.T.Underlying().(*types.Map); ok {
+			if st, ok := pt.Elem().Underlying().(*types.Struct); ok {
+				m := inp.V.(*Map)
+				sv := (*dst).(Struct)
+				for i := 0; i < st.NumFields(); i++ {
+					n := tagName(st, i)
+					if n == "" {
+						continue
+					}
+					if v, ok := m.lookup(c, mkStr(n)); ok {
+						iv := v.(Iface)
+						if iv.T == nil {
+							continue
+						}
+						if !types.Identical(iv.T, st.Field(i).Type()) {
+							panic(inconclusive("mapstructure.Decode: field %s has %v, want %v (weak conversions not modelled)", n, iv.T, st.Field(i).Type()))
+						}
+						sv[i] = copyVal(iv.V)
+					}
+				}
+				return Iface{}
+			}
+		}
+		panic(inconclusive("mapstructure.Decode: unsupported shapes %v -> %v", inp.T, outp.T))
 	}
 
 	// ---------------- misc ----------------
